@@ -911,3 +911,62 @@ PROPERTIES["C08"] = {
             "model on arbitrary indentation. Non-trivial: nesting depth >= 1 and >= 3 Next calls.",
     "assumptions": [],
 }
+
+
+# ------------------------------------------------------------------ load (C05)
+def load_oracle(case, obs, exp):
+    if tag(obs) != "load":
+        return "violation", "the process died while loading"
+    outcome, usable, valid, why = str(obs[1]), str(obs[2]), obs[3], str(obs[4])
+    if outcome == "panic":
+        return "violation", "NewDialogueRunner panicked"
+    if outcome == "hang":
+        return "violation", "NewDialogueRunner did not return within 10 s"
+    if usable == "panic":
+        return "violation", "the runner that was returned panicked on its first Next calls"
+    if outcome == "runner" and not valid:
+        return "violation", "input that is not a valid script (%s) was loaded as a runner" % why
+    if outcome == "err" and valid:
+        return "violation", "a syntactically valid script with a valid seed was rejected"
+    return "ok", "runner exactly for valid input"
+
+
+def load_features(case):
+    texts = [bytes(r).decode("utf8", "replace") for r in case[2]]
+    labels = ["readers=%d" % len(texts), "seed:" + ("empty" if case[1] == "" else "lower" if str(case[1]).isalnum() and str(case[1]).islower() or str(case[1]).isdigit() else "other"),
+              "size<=100" if sum(map(len, texts)) <= 100 else "size<=1000" if sum(map(len, texts)) <= 1000 else "size>1000",
+              "has-node" if any("---" in t for t in texts) else "no-node",
+              "invalid-utf8" if any(bytes(r) != bytes(r).decode("utf8", "replace").encode("utf8") for r in case[2]) else "utf8"]
+    return sexp.dump(case), any("---" in t for t in texts), labels
+
+
+def load_shrink(case):
+    out = []
+    rs = case[2]
+    if len(rs) > 1:
+        for r in drop_each(rs):
+            out.append([case[0], case[1], r])
+    for i, r in enumerate(rs):
+        text = bytes(r)
+        lines = text.split(b"\n")
+        for j in range(len(lines)):
+            t = b"\n".join(lines[:j] + lines[j + 1:])
+            out.append([case[0], case[1], rs[:i] + [list(t)] + rs[i + 1:]])
+            if len(out) > 120:
+                return out
+    return out
+
+
+FAMILIES["load"] = {"oracle": load_oracle, "features": load_features, "shrink": load_shrink,
+                    "project": lambda line: "-", "always_oracle": True}
+PROPERTIES["C05"] = {
+    "families": [("load", 500, 20000), ("indent", 400, 10000)],
+    "rule": "load: (a) printer output of generated programs split over 1-3 readers with 0-3 mutations (truncate, delete/"
+            "duplicate/swap a line, unbalance >>, break endif, mix tabs and blanks, overwrite a byte, insert keyword soup, "
+            "cut one script in two at an arbitrary offset), (b) keyword soups, random bytes incl. invalid UTF-8, empty/"
+            "blank/comment-only input; seeds over [0-9a-z]{1,14}, the empty seed, and seeds with other characters. The "
+            "outcome (runner / error / panic / hang, and whether a returned runner survives 4 Next calls) is judged "
+            "against an independent run of the generated lexer and parser with error listeners of its own (hook "
+            "VerifSyntaxCheck). Non-trivial: the input contains a node body marker.",
+    "assumptions": ["'syntactically valid' = the generated ANTLR lexer/parser report no error, consume the whole input and find >= 1 node per reader"],
+}
